@@ -103,8 +103,12 @@ class Exec(object):
             w.pump_rounds(50)
         elif op == "adv":
             w.advance(s[1])
+        elif op == "jump":
+            if self.tracker is not None:
+                self.tracker.irregular_sweeps = True
+            w.jump(s[1])
         elif op == "restart":
-            if self.tracker is not None and self.timer:
+            if self.tracker is not None and self.timer and not self.tracker.irregular_sweeps:
                 self.tracker.check_sweep_counts(w)      # (without the service's timer the harness decides when sweeps run)
             w.stop()
             if len(s) > 1 and isinstance(s[1], dict):
@@ -145,7 +149,8 @@ class Exec(object):
             w.drop(n)
         w.advance(EXPIRY + 2 * PERIOD + 1)
         if self.tracker is not None and self.timer:
-            self.tracker.check_sweep_counts(w)
+            if not self.tracker.irregular_sweeps:
+                self.tracker.check_sweep_counts(w)
             self.tracker.check_quiescent(w)
 
     def close(self):
